@@ -109,7 +109,9 @@ def canon_offers(tasks):
             "id": t["id"], "route": t["route"],
             "actions": [{"action": a["action"], "input": a["input"], "item_id": a.get("item_id")}
                         for a in t["actions"]],
-            "delay": t.get("delay"),
+            # an unevaluated retry delay (its evaluation failed when the record was set up) is offered
+            # as the expression's text; the model prints every string delay in the same canonical form
+            "delay": _rv(t.get("delay")),
             "items_count": t.get("items_count"),
             "concurrency": t["concurrency"] if "concurrency" in t else "<absent>",
             "ctx": {k: v for k, v in t["ctx"].items() if not k.startswith("__")},
